@@ -584,9 +584,15 @@ func (ee *engineEnv) costlyN(tu *ketoapi.RelationTuple, depth int, budget int) b
 	go func() { eng.CheckRelationTuple(ctx, its[0], depth); close(done) }()
 	select {
 	case <-done:
-	case <-time.After(20 * time.Second):
+		return p.count() >= budget
+	case <-time.After(5 * time.Second):
+		// not back after 5 s (ordinary checks take milliseconds): either hundreds of thousands of sub-check goroutines are
+		// queueing for the same locks (expensive: still issuing storage operations, slowly) or the check is stuck (no
+		// operation any more: not "costly" - the caller runs it under its own guard and reports the hang)
+		n1 := p.count()
+		time.Sleep(1500 * time.Millisecond)
+		return n1 >= budget || p.count() > n1
 	}
-	return p.count() >= budget
 }
 
 // check runs the real engine on one tuple; a check that has not returned after 20 s is reported as "hang" (and the
